@@ -32,6 +32,8 @@ structure Table where
   stateCount : Nat := 0
   productionIdCount : Nat := 0
   keywordCaptureToken : Nat := 0
+  /-- `max_alias_sequence_length`: the row stride of `ts_alias_sequences` -/
+  maxAliasSeqLen : Nat := 0
   /-- per state: terminal ↦ action list (cells whose `ts_language_lookup` value is non-zero). -/
   acts : Array (List (Nat × List Action)) := #[]
   /-- per state: non-terminal ↦ successor state (non-zero cells). -/
@@ -104,8 +106,8 @@ def setAt (arr : Array Nat) (s v : Nat) : Array Nat :=
 /-- Consume one dump line. -/
 def Table.addLine (t : Table) (line : String) : Table :=
   match line.splitOn " " with
-  | ["lang", _abi, sc, ac, tc, _etc, stc, _lsc, pc, _fc, _mal, kct] =>
-    { t with symbolCount := natOf' sc, aliasCount := natOf' ac, tokenCount := natOf' tc,
+  | ["lang", _abi, sc, ac, tc, _etc, stc, _lsc, pc, _fc, mal, kct] =>
+    { t with maxAliasSeqLen := natOf' mal, symbolCount := natOf' sc, aliasCount := natOf' ac, tokenCount := natOf' tc,
              stateCount := natOf' stc, productionIdCount := natOf' pc, keywordCaptureToken := natOf' kct,
              acts := Array.replicate (natOf' stc) [], gotos := Array.replicate (natOf' stc) [],
              lexState := Array.replicate (natOf' stc) 0, extLexState := Array.replicate (natOf' stc) 0 }
